@@ -1273,3 +1273,34 @@ pub mod shutdown {
         pub fn finish(self) {}
     }
 }
+
+/// `net_utils::scrub_request` / `scrub_sni` and the Debug form of `authentication::Source`
+pub mod scrub {
+    use crate::authentication::Source;
+
+    /// headers in, `(name, value)` pairs of the scrubbed request out (in the map's iteration order)
+    pub fn request_headers(headers: &[(String, Vec<u8>)]) -> Vec<(String, Vec<u8>)> {
+        let mut b = http::Request::builder().method("GET").uri("/");
+        for (n, v) in headers {
+            b = b.header(n.as_str(), v.as_slice());
+        }
+        let parts = b.body(()).unwrap().into_parts().0;
+        crate::net_utils::scrub_request(&parts)
+            .headers
+            .iter()
+            .map(|(n, v)| (n.as_str().to_string(), v.as_bytes().to_vec()))
+            .collect()
+    }
+
+    pub fn sni(sni: &str) -> String {
+        crate::net_utils::scrub_sni(sni.to_string())
+    }
+
+    pub fn source_debug(proxy_basic: bool, value: &str) -> String {
+        if proxy_basic {
+            format!("{:?}", Source::ProxyBasic(value.into()))
+        } else {
+            format!("{:?}", Source::Sni(value.into()))
+        }
+    }
+}
